@@ -1339,6 +1339,71 @@ theorem comb_tau_infinite (D : ℕ) :
   have := (Real.continuous_exp.tendsto 0).comp h0
   simpa [Function.comp_def] using this
 
+/-- **C13.12n** `erb` is elementwise in the frequency: over a list / tuple the result is the list of the
+single calls when every item is accepted (always, when `Hz` is given) and the `ValueError` of the first
+refused item otherwise; a Stream / generator yields the single calls item by item up to the first refusal. -/
+theorem erb_elementwise (st : Option ErbStrategy) (fs : List ℝ) :
+    (∀ hz : ℝ, erbCallList st fs (some hz) = .ok (fs.map fun f => erb (st.getD .gm90) f hz)) ∧
+    ((∀ f ∈ fs, 7 ≤ f) → erbCallList st fs none = .ok (fs.map fun f => erb (st.getD .gm90) f 1)) ∧
+    ((∃ f ∈ fs, f < 7) → erbCallList st fs none = .error ()) ∧
+    (∀ hz : Option ℝ, ∀ k, k < (erbCallLazy st fs hz).length →
+        (erbCallLazy st fs hz)[k]? = some (erbCall st (fs.getD k 0) hz)) := by
+  refine ⟨fun hz => ?_, fun h => ?_, fun h => ?_, fun hz => ?_⟩
+  · induction fs with
+    | nil => rfl
+    | cons f fs ih => simp [erbCallList, (erb_call st f).2.2 hz, ih]
+  · induction fs with
+    | nil => rfl
+    | cons f fs ih =>
+      have h7 := h f (by simp)
+      simp [erbCallList, (erb_call st f).2.1 h7, ih (fun g hg => h g (by simp [hg]))]
+  · induction fs with
+    | nil => obtain ⟨f, hf, _⟩ := h; cases hf
+    | cons f fs ih =>
+      by_cases h7 : f < 7
+      · simp [erbCallList, (erb_call st f).1 h7]
+      · obtain ⟨g, hg, hg7⟩ := h
+        have hg' : g ∈ fs := by
+          rcases List.mem_cons.1 hg with h' | h'
+          · exact absurd (h' ▸ hg7) h7
+          · exact h'
+        simp [erbCallList, (erb_call st f).2.1 (not_lt.1 h7), ih ⟨g, hg', hg7⟩]
+  · induction fs with
+    | nil => intro k hk; simp [erbCallLazy] at hk
+    | cons f fs ih =>
+      intro k hk
+      cases hr : erbCall st f hz with
+      | error e =>
+        simp only [erbCallLazy, hr, List.length_singleton] at hk ⊢
+        have : k = 0 := by omega
+        subst this; simp [hr]
+      | ok v =>
+        simp only [erbCallLazy, hr, List.length_cons] at hk ⊢
+        cases k with
+        | zero => simp [hr]
+        | succ k => simpa using ih k (by omega)
+
+/-- **C13.12o** a cascade in the time domain (`runCascade`, what the driver evaluates for the entry `run`):
+section after section, each on the output of the one before; every section gives one output per input. -/
+theorem run_cascade_sections (s : Coefs ℝ) (ss : List (Coefs ℝ)) (xs : List ℝ) :
+    runCascade [] xs = xs ∧ runCascade (s :: ss) xs = runCascade ss (runFilter s xs) ∧
+    (s.den ≠ [] → (runFilter s xs).length = xs.length) ∧
+    ((∀ t ∈ s :: ss, t.den ≠ []) → (runCascade (s :: ss) xs).length = xs.length) := by
+  have hlen : ∀ (t : Coefs ℝ) (ys : List ℝ), t.den ≠ [] → (runFilter t ys).length = ys.length := by
+    intro t ys ht
+    unfold runFilter
+    cases hd : t.den with
+    | nil => exact absurd hd ht
+    | cons a0 as => exact C04.fspec_length _ _ _ _ _ _ _
+  refine ⟨rfl, rfl, hlen s xs, ?_⟩
+  generalize s :: ss = l
+  induction l generalizing xs with
+  | nil => intro _; rfl
+  | cons t l ih =>
+    intro h
+    show (runCascade l (runFilter t xs)).length = xs.length
+    rw [ih (runFilter t xs) (fun u hu => h u (by simp [hu])), hlen t xs (h t (by simp))]
+
 -- 12a: the documented doctest value erb["moore_glasberg_83"](1000) = 128.14, and gm90(1000) = 132.639
 example : erb .mg83 (1000 : ℝ) 1 = 12814 / 100 ∧ erb .gm90 (1000 : ℝ) 1 = 132639 / 1000 := by
   constructor
